@@ -367,3 +367,34 @@ Definition may_witnesses (x : input) (p : seq) : list witness :=
         (may_secs x h))
       (may_starts x h hs))
     (hap_masks false (in_vars x)).
+
+(* ------------------------------------------------------------------ D14b signature: look-behind evaluated node-locally *)
+(* alternatives of the rule that need no look-behind give FIRM sites; a site that exists only through an
+   alternative with look-behind (trypsin's (?<=W)K(?=P), caspases, thrombin, ...) is SOFT: the engine,
+   which evaluates the rule on node-local strings, may miss it.  Relaxed digestion: every rule site may
+   be a boundary, only firm unsuppressed sites count as missed cleavages. *)
+Definition firm_rule (r : rule) : rule :=
+  filter (fun a => match before a with [] => true | _ => false end) r.
+
+Definition firm_sites (x : input) (aas : seq) : list nat :=
+  filter (fun i => mem_nat i (raw_sites (firm_rule (in_rule x)) aas)) (sites (in_rule x) (in_exc x) aas).
+
+Definition relaxed2_products (x : input) (nf : bool) (aas : seq) : list seq :=
+  let raw := raw_sites (in_rule x) aas in
+  let hard := firm_sites x aas in
+  let bs := 0%nat :: raw ++ [length aas] in
+  let k := Z.to_nat (lim_k (in_lim x)) in
+  flat_map (fun a =>
+    flat_map (fun b =>
+      if Nat.ltb a b && Nat.leb (count_in hard a b) k then
+        let p := piece aas a b in
+        (if Nat.eqb a 0 && negb nf && starts_with_M p
+         then update protein_weights4 water4 (in_lim x) (tl p) else [])
+        ++ update protein_weights4 water4 (in_lim x) p
+      else []) bs) bs.
+
+Definition may_products_relaxed2 (x : input) (h : list variant) : list seq :=
+  let hs := apply_hap (in_tx x) h in
+  flat_map (fun st =>
+    flat_map (fun secs => relaxed2_products x false (fst (translate_from hs st secs))) (may_secs x h))
+    (may_starts x h hs).
